@@ -47,9 +47,14 @@ impl RadiusAccount {
 
         let groups = Group::<()>::try_from_account_reduced(value, qs)?;
 
-        let valid_from = value.get_ava_single_datetime(Attribute::AccountValidFrom);
+        // The validity window must come from the stored entry. The reduced entry only
+        // carries what the caller may read, and a radius server is not required to have
+        // read access to these attributes for them to be enforced.
+        let stored = qs.internal_search_uuid(uuid)?;
 
-        let expire = value.get_ava_single_datetime(Attribute::AccountExpire);
+        let valid_from = stored.get_ava_single_datetime(Attribute::AccountValidFrom);
+
+        let expire = stored.get_ava_single_datetime(Attribute::AccountExpire);
 
         Ok(RadiusAccount {
             name,
